@@ -269,6 +269,27 @@ class Interp:
         o.attrs = {}
         return so
 
+    def new_symobj(self, cls):
+        st = self.state
+        a = st.ghost.get('alloc')
+        if a is None:
+            raise Unsupported('allocation of a symbolic %s needs an allocation ghost (E.alloc())' % cls.name)
+        ref = self.ctx.fresh('new_' + cls.name, IntSort)
+        self.ctx.assume(ref == a)
+        st.ghost['alloc'] = a + 1
+        st.allocated.append(ref)
+        so = SymObj(ref, cls, st)
+        # a new object: nothing is known about its fields except what its constructor's contract says
+        for key in list(st.fields):
+            if key[0] == cls.name:
+                arr, kind = st.fields[key]
+                t = self.ctx.fresh('init_%s_%s' % key, kind.sort())
+                st.fields[key] = (z3.Store(arr, ref, t), kind)
+                la = st.field_len.get(key)
+                if la is not None:
+                    st.field_len[key] = z3.Store(la, ref, self.ctx.fresh('initlen_%s_%s' % key, IntSort))
+        return so
+
     # ------------------------------------------------------------------ module / name resolution
     def module_global(self, module, name):
         if name in module.globals:
@@ -1032,6 +1053,12 @@ class Interp:
                 return self.lib.instantiate_builtin_subclass(self, info, args, kwargs)
             obj = Obj(info)
         init = info.find_method('__init__')
+        if init is not None and new is None and getattr(self.contracts.get(init.qualname), 'constructs', False) \
+                and (init.qualname != self.verifying or self.in_body):
+            # constructor under contract: the new object is a fresh reference whose fields are what the contract says
+            so = self.new_symobj(info)
+            self.call_function(init, [so] + list(args), kwargs)
+            return so
         if init is not None:
             self.call_function(init, [obj] + list(args), kwargs)
         elif args or kwargs:
